@@ -1,5 +1,8 @@
-// extract: a deliberately tiny Go -> Gallina translator for first-order integer functions
-// (DESIGN.md section 3.5).  Usage: extract <file.go> <funcname> <coqname>
+// extract: a deliberately tiny Go -> Gallina translator (DESIGN.md section 3.5).
+// Usage: extract <file.go> <funcname> <coqname>      first-order integer function
+//        extract const <file.go> <name>               string constant      -> its value, one line, Go-quoted
+//        extract map <file.go> <var>                  map composite literal -> one "key<TAB>value" line per entry, sorted
+//                                                     (string literals unquoted, identifiers/other expressions as source text)
 // Supported: parameters of type int; a body that is a sequence of
 //   if <cond> { return <expr> }   (optionally with else { return <expr> } / else if ...)
 // ended by `return <expr>`; cond over ==, !=, <, <=, >, >=, &&, ||, !, parentheses;
@@ -8,11 +11,15 @@
 package main
 
 import (
+	"bytes"
 	"fmt"
 	"go/ast"
 	"go/parser"
+	"go/printer"
 	"go/token"
 	"os"
+	"sort"
+	"strconv"
 	"strings"
 )
 
@@ -119,7 +126,72 @@ func stmtsFallthrough(block, rest []ast.Stmt) string {
 	return stmts(append(append([]ast.Stmt{}, block...), rest...))
 }
 
+func litOrText(fset *token.FileSet, e ast.Expr) string {
+	if bl, ok := e.(*ast.BasicLit); ok && bl.Kind == token.STRING {
+		v, err := strconv.Unquote(bl.Value)
+		if err == nil {
+			return v
+		}
+	}
+	var b bytes.Buffer
+	printer.Fprint(&b, fset, e)
+	return b.String()
+}
+
+func tables() {
+	fset := token.NewFileSet()
+	f, err := parser.ParseFile(fset, os.Args[2], nil, 0)
+	if err != nil {
+		die("%v", err)
+	}
+	for _, d := range f.Decls {
+		gd, ok := d.(*ast.GenDecl)
+		if !ok {
+			continue
+		}
+		for _, sp := range gd.Specs {
+			vs, ok := sp.(*ast.ValueSpec)
+			if !ok {
+				continue
+			}
+			for i, n := range vs.Names {
+				if n.Name != os.Args[3] || i >= len(vs.Values) {
+					continue
+				}
+				switch os.Args[1] {
+				case "const":
+					fmt.Printf("%q\n", litOrText(fset, vs.Values[i]))
+					return
+				case "map":
+					cl, ok := vs.Values[i].(*ast.CompositeLit)
+					if !ok {
+						die("%s is not a composite literal", n.Name)
+					}
+					var lines []string
+					for _, el := range cl.Elts {
+						kv, ok := el.(*ast.KeyValueExpr)
+						if !ok {
+							die("element without key")
+						}
+						lines = append(lines, fmt.Sprintf("%q\t%q", litOrText(fset, kv.Key), litOrText(fset, kv.Value)))
+					}
+					sort.Strings(lines)
+					for _, l := range lines {
+						fmt.Println(l)
+					}
+					return
+				}
+			}
+		}
+	}
+	die("%s %s not found in %s", os.Args[1], os.Args[3], os.Args[2])
+}
+
 func main() {
+	if len(os.Args) == 4 && (os.Args[1] == "const" || os.Args[1] == "map") {
+		tables()
+		return
+	}
 	if len(os.Args) != 4 {
 		die("usage: extract file.go func coqname")
 	}
